@@ -301,7 +301,17 @@ func parent() {
 		// verify the images in batches, each batch in its own process
 		type span struct{ from, to int }
 		var spans []span
-		for f := 0; f < len(L.Images); f += batch {
+		// directed histories: the images of the node set-up are covered by the generated histories
+		startAt := 0
+		if j.idx >= directedBase {
+			startAt = len(L.Images)
+			for _, e := range L.Entries {
+				if e.First >= 0 && e.First < startAt {
+					startAt = e.First
+				}
+			}
+		}
+		for f := startAt; f < len(L.Images); f += batch {
 			t := f + batch
 			if t > len(L.Images) {
 				t = len(L.Images)
@@ -352,6 +362,9 @@ func parent() {
 		}
 		wg.Wait()
 		for i, r := range results {
+			if i < startAt {
+				continue
+			}
 			if r == nil {
 				c.Inconclusive("history %d image %d: no verdict", j.idx, i)
 				continue
